@@ -89,6 +89,12 @@ unsafe impl Exfiltrator for WithRawSiginfo {
     }
 
     fn init(&self, slot: &Self::Storage, _: c_int) {
+        // The slot may already be initialized by a previous attempt to add the same signal whose
+        // registration then failed (init is called before the registration). The callers
+        // serialize calls to init for one slot, so a simple check is enough.
+        if !slot.0.load(Ordering::Acquire).is_null() {
+            return;
+        }
         let new = Box::default();
         let old = slot.0.swap(Box::into_raw(new), Ordering::Release);
         // We leak the pointer on purpose here. This is invalid state anyway and must not happen,
